@@ -10,8 +10,8 @@
     h3err <c>                                                           -> h3err
     stream <c> <malformed>                                              -> silent | reply | closed-no-bytes
     dgram <c> <wellformed>                                              -> sent
-    breq <c> <v>            (auth request, blocking authenticator)      -> pending | 233/<udp>/<rx>
-    rel <c>                                                             -> 233/<udp>/<rx> | masq | none
+    breq <c> <v>            (auth request, blocking authenticator)      -> pending | 233
+    rel <c>                                                             -> 233 | other | none
     noop <text>                                                         -> <text>
     end                                                                 -> end c<i>:<UDPMessages received> ...
 -/
@@ -62,8 +62,8 @@ def showResp (r : Resp) : String :=
   let h := canonHeaders r.headers
   s!"{r.status} {if h = "" then "-" else hexOfStr h} {if r.body = "" then "-" else r.body}"
 
-def out233 (cfg : Cfg) : String :=
-  "233/" ++ boolStr cfg.udp ++ "/" ++ (if cfg.rxAuto then "auto" else toString cfg.maxRx)
+/-- `breq`/`rel` answers are reported as `233` / `other` (the whole response is compared by `req`) -/
+def out233 (_cfg : Cfg) : String := "233"
 
 /-- the blocked authenticator of `c` returns: ServeHTTP finishes as `serve` says -/
 def release (s : S) (c : Nat) : S × String :=
@@ -73,7 +73,7 @@ def release (s : S) (c : Nat) : S × String :=
   | some v =>
     let r : Req := ⟨Gen.MethodPost, Gen.URLHost, Gen.URLPath⟩
     let (resp, authed') := serve (fun _ => ⟨0, [], ""⟩) (fun _ => v) s.cfg "" k.authed r
-    (setC s { k with authed := authed', pend := none }, if resp.status = Gen.StatusAuthOK then out233 s.cfg else "masq")
+    (setC s { k with authed := authed', pend := none }, if resp.status = Gen.StatusAuthOK then out233 s.cfg else "other")
 
 def step (s : S) (line : String) : S × String :=
   match fields line with
